@@ -39,11 +39,12 @@ def _base(t):
             return t
 
 
-def encode_seq(fn, raw=False):
+def encode_seq(fn, raw=False, _depth=0):
     """ordered component writes.  With raw=True also direct byte writes into the buffer (extend_from_slice / push),
     and a `u32` length prefix followed by the raw bytes of the same value is folded into one `Vec<u8>` component
     (that is what Vec<u8>'s own encoding writes)."""
     seq = []
+    F = fn.facts
     for c in rpo_calls(fn):
         if c.trait == ENC_TRAIT and c.method == "encode":
             t = origin(fn, c.args[0])
@@ -52,6 +53,16 @@ def encode_seq(fn, raw=False):
         elif raw and (c.method or "") in ("extend_from_slice", "extend") and "Vec" in (c.target_path or "") and len(c.args) == 2:
             t = origin(fn, c.args[1])
             seq.append({"ty": "bytes*", "field": None, "src": show(t)[:80], "call": c, "term": t})
+        elif _depth < 3 and c.target_id and c.target_id in F.fns and F.fns[c.target_id].blocks and F.fns[c.target_id].j.get("trait") != ENC_TRAIT \
+                and any((fn.local_ty(a["l"]) or "").replace(" ", "") == "&mutstd::vec::Vec<u8>" for a in c.args if "l" in a):
+            # a local helper that is handed the output buffer: its writes are this encoder's writes (parameters substituted)
+            from terms import subst_params
+            g = F.fns[c.target_id]
+            args = tuple(origin(fn, a) for a in c.args)
+            for x in encode_seq(g, raw=raw, _depth=_depth + 1):
+                t = subst_params(x["term"], args)
+                flds = self_fields(t)
+                seq.append({"ty": x["ty"], "field": flds[0] if flds else None, "src": show(t)[:80], "call": c, "term": t})
     if raw:
         out = []
         i = 0
